@@ -10,6 +10,8 @@ import BytomModel.Model.Wallet
 import BytomModel.Lemmas.Wallet
 import BytomModel.Props.C24
 import BytomModel.Lemmas.Project
+import BytomModel.Model.Keeper
+import BytomModel.Lemmas.Keeper
 
 set_option linter.unusedSimpArgs false
 
@@ -360,5 +362,98 @@ example : ∃ u, dbGet 1 (walk f15Params [.push ⟨1, 0, 0, [cbTx 1 1]⟩] ([], 
 
 /-- testnet / solonet (constant 10) satisfy the assumption -/
 example : ParamsOK ⟨fun _ => true, fun _ => 0, 10, fun _ => 10⟩ := ⟨fun _ _ _ => Nat.le_refl _, fun _ => by simp⟩
+
+
+/-! ### the keeper side: which record of an output decides "usable" -/
+
+section KeeperSide
+open BytomModel.Model.Keeper BytomModel.Lemmas.Keeper
+
+/-- `listed_usable_is_mature_confirmed`: every record `findUtxos` hands to Reserve is mature at the
+    keeper's height; and when the output is a wallet-DB record (standard key, matching the
+    request), the record handed out IS that DB record — the confirmed record wins whatever its
+    maturity, so an immature confirmed output is never listed through an unconfirmed copy of it
+    that carries another ValidHeight. -/
+theorem listed_usable_is_mature_confirmed (k : BytomModel.Model.Keeper.Keeper) (acct asset : Nat) (useUnc : Bool) (vote : Nat)
+    (hnd : ((k.confirmed.filter (fun c => !c.contract)).map (·.id)).Nodup)
+    (u : BytomModel.Model.Keeper.Utxo) (hu : u ∈ (findUtxos k acct asset useUnc vote).1) :
+    u.validHeight ≤ k.height ∧
+    ∀ c ∈ k.confirmed, c.contract = false → matchesReq acct asset vote c = true → c.id = u.id → u = c := by
+  simp only [findUtxos, List.mem_filter, mature, decide_eq_true_eq] at hu
+  refine ⟨hu.2, ?_⟩
+  intro c hc hstd hmatch hid
+  have hm := hu.1
+  unfold matching listed at hm
+  rw [List.filter_append] at hm
+  have hcin : c ∈ (k.confirmed.filter (fun c => !c.contract)).filter (matchesReq acct asset vote) := by
+    simp [List.mem_filter, hc, hstd, hmatch]
+  have hul := distinctById_append_left _ _ u hm ⟨c, hcin, hid⟩
+  have hu1 : u ∈ k.confirmed.filter (fun c => !c.contract) := (List.mem_filter.mp hul).1
+  have hc1 : c ∈ k.confirmed.filter (fun c => !c.contract) := (List.mem_filter.mp hcin).1
+  exact List.inj_on_of_nodup_map hnd hu1 hc1 hid.symm
+
+/-- corollary for Reserve: a successful reservation holds no output whose wallet-DB record is
+    still immature -/
+theorem reserve_never_holds_immature_confirmed (sortFn : List BytomModel.Model.Keeper.Utxo → List BytomModel.Model.Keeper.Utxo)
+    (hperm : ∀ l, (sortFn l).Perm l) (k k' : BytomModel.Model.Keeper.Keeper)
+    (acct asset amount : Nat) (useUnc : Bool) (vote exp : Nat) (r : Res)
+    (hnd : ((k.confirmed.filter (fun c => !c.contract)).map (·.id)).Nodup)
+    (h : reserveWith sortFn k acct asset amount useUnc vote exp = (.ok r, k'))
+    (c : BytomModel.Model.Keeper.Utxo) (hc : c ∈ k.confirmed) (hstd : c.contract = false)
+    (hmatch : matchesReq acct asset vote c = true) (hheld : ∃ u ∈ r.utxos, u.id = c.id) :
+    c.validHeight ≤ k.height := by
+  obtain ⟨u, hu, hid⟩ := hheld
+  rcases reserveWith_cases sortFn k acct asset amount useUnc vote exp with ⟨r0, h0, _, _, hsub, _, _⟩ | ⟨_, hne⟩
+  · rw [h0] at h
+    simp only [Prod.mk.injEq, Outcome.ok.injEq] at h
+    obtain ⟨rfl, _⟩ := h
+    have hm := (hsub.subset hu)
+    simp only [List.mem_filter] at hm
+    have hcand := (hperm _).mem_iff.mp hm.1
+    obtain ⟨hmat, heq⟩ := listed_usable_is_mature_confirmed k acct asset useUnc vote hnd u hcand
+    rw [← heq c hc hstd hmatch hid.symm]
+    exact hmat
+  · exact absurd (by rw [h]) (hne r)
+
+/-- FULL statement for ReserveParticular: the output it hands out is mature according to its
+    wallet-DB record. Refuted (F15c): with `useUnconfirmed` the unconfirmed copy is preferred. -/
+def particular_confirmed_mature_full : Prop :=
+  ∀ (k k' : BytomModel.Model.Keeper.Keeper) (oid : Nat) (useUnc : Bool) (exp : Nat) (r : Res),
+    reserveParticular k oid useUnc exp = (.ok r, k') →
+    ∀ c ∈ k.confirmed, c.id = oid → c.validHeight ≤ k.height
+
+/-- witness: vote output 1 created at height 11 with pending 10: DB record ValidHeight 21, its
+    pool copy (txOutToUtxos(tx, 0)) ValidHeight 10; at height 11 it is handed out. -/
+def f15cKeeper : BytomModel.Model.Keeper.Keeper :=
+  { BytomModel.Model.Keeper.empty with confirmed := [⟨1, 0, 500, 1, 7, 21, false, 1⟩], unconfirmed := [⟨1, 0, 500, 1, 7, 10, false, 1⟩], height := 11 }
+
+theorem particular_confirmed_mature_full_refuted : ¬ particular_confirmed_mature_full := by
+  intro h
+  have := h f15cKeeper _ 1 true 50 _ rfl ⟨1, 0, 500, 1, 7, 21, false, 1⟩ (by decide) rfl
+  revert this; decide
+
+/-- `particular_confirmed_mature_partial`: without `useUnconfirmed` (or when the output has no
+    pool copy) the record handed out is a wallet-DB record and it is mature. -/
+theorem particular_confirmed_mature_partial (k k' : BytomModel.Model.Keeper.Keeper) (oid : Nat) (exp : Nat) (r : Res)
+    (h : reserveParticular k oid false exp = (.ok r, k')) :
+    ∃ c ∈ k.confirmed, c.id = oid ∧ r.utxos = [c] ∧ c.validHeight ≤ k.height := by
+  rcases reserveParticular_cases k oid false exp with ⟨u, h0, hf, hid, _, hm⟩ | ⟨_, hne⟩
+  · rw [h0] at h
+    simp only [Prod.mk.injEq, Outcome.ok.injEq] at h
+    obtain ⟨rfl, _⟩ := h
+    refine ⟨u, ?_, hid, rfl, hm⟩
+    unfold findUtxo at hf
+    simp only [Bool.false_eq_true, if_false] at hf
+    split at hf
+    · rename_i v hv
+      simp only [Option.some.injEq] at hf; subst hf
+      exact List.mem_of_find?_eq_some hv
+    · exact List.mem_of_find?_eq_some hf
+  · exact absurd (by rw [h]) (hne r)
+
+/-- the Reserve path refuses the same state (the unchanged findUtxos lets the DB record win) -/
+example : (reserve f15cKeeper 1 0 100 true 7 50).1 = .err .immature := by decide
+
+end KeeperSide
 
 end BytomModel.Props.C25
